@@ -30,7 +30,7 @@ CHECKS.update({
 })
 
 CHECKS.update({
- 'C05': ('model_checking', 'all SELECT lists of 1..2/3 items from 12 item kinds (incl. quoted text holding the other quote character or a colon) x 8 WHERE clauses on 160 rows, and the documented nested access paths (arr[0], arr[-1], d["x"], ds[1].x, mat[1][0]) as items and in WHERE on 360 rows, through EmitSync (history = all earlier rows; every 7th row alone), Emit + sync sink and the result channel, against a projection/filter reference; plus all schedules (<=2/3 deviations) of a producer with a sync sink, an async sink and a channel reader (order) and of three Emits into an input buffer of one row (no row twice); auxiliary: a free-running -race pass of Emit || EmitSync on general-path direct queries (results compared with the sequential ones)', 'DESIGN.md 3/C05', SEQ_NOTE + '; ' + SCHED_NOTE, DET + ' + stateless schedule DFS'),
+ 'C05': ('model_checking', 'all SELECT lists of 1..2/3 items from 12 item kinds (incl. quoted text holding the other quote character or a colon) x 8 WHERE clauses on 160 rows, and the documented nested access paths (arr[0], arr[-1], d["x"], ds[1].x, mat[1][0]) as items and in WHERE on 360 rows, FROM aliases without a JOIN, through EmitSync (history = all earlier rows; every 7th row alone), Emit + sync sink and the result channel, against a projection/filter reference; plus all schedules (<=2/3 deviations) of a producer with a sync sink, an async sink and a channel reader (order) and of three Emits into an input buffer of one row (no row twice); auxiliary: a free-running -race pass of Emit || EmitSync on general-path direct queries (results compared with the sequential ones)', 'DESIGN.md 3/C05', SEQ_NOTE + '; ' + SCHED_NOTE, DET + ' + stateless schedule DFS'),
  'C06': ('model_checking', 'all generated expression ASTs (arithmetic with precedence/parentheses, comparisons, NOT/AND/OR incl. mixed precedence, searched and simple CASE) in textual variants, in SELECT and WHERE, on 45 typed rows against ref.Expr (SQL three-valued logic), each also with reversed row order on fresh process-wide caches; scalar functions over argument tuples (arity <=2/3, variadic ones always 3) through the call routes; numbers cast to text or concatenated read back exactly; case-variant expression pairs in one process', 'DESIGN.md 3/C06', SEQ_NOTE, DET),
  'C07': ('model_checking', 'exhaustive product of SELECT item sets (agg op literal, agg op agg, parenthesised, aggregate over expression / function / CASE, function over aggregate, the same parameterised aggregate twice) x HAVING (incl. NOT, unselected aggregates, OR before AND without parentheses) x ORDER BY x LIMIT x DISTINCT on 8 datasets (incl. text sort keys that read as numbers) against a relational reference; consecutive batches must still read at the end what they read at delivery', 'DESIGN.md 3/C07', SEQ_NOTE, DET),
  'C11': ('model_checking', 'every token string of length <=5/6 over 25 tokens and every byte string of length <=4/5 over 16 hostile bytes after 6 prefixes parsed under panic capture and a hang watchdog; every generated grammar statement (incl. un-aliased JOINs, keyword-bearing identifiers MATCH_RECOGNIZE statements (incl. reluctant quantifiers spelt with and without blanks) and every spelling of the WITHIN bound) WITH options in both orders, the window first in GROUP BY, and the one-edit neighbourhood of 9 valid statements in two layouts (totality) compared field by field with the returned configuration and re-parsed in 12 layouts (token-wise keyword case x separators)', 'DESIGN.md 3/C11', 'trusted base: the statement generator doubles as the expectation; rsql.Parse is called directly (no scheduler needed)', 'bounded-exhaustive enumeration of inputs/programs on the real parser'),
